@@ -65,6 +65,12 @@ const (
 // with indefinite write blocking (issue #724). All checkpoints now use either
 // PASSIVE (non-blocking) or TRUNCATE (emergency only) modes.
 type DB struct {
+	// lifecycleMu serializes Open and Close. The store's EnableDB/DisableDB
+	// (driven by concurrent control requests) can otherwise overlap: two Opens
+	// both start a monitor, or an Open replaces db.ctx/db.cancel while a Close
+	// is still using them.
+	lifecycleMu sync.Mutex
+
 	mu        sync.RWMutex
 	execSem   *semaphore.Weighted
 	path      string        // part to database
@@ -782,6 +788,9 @@ func (db *DB) EnsureExists(ctx context.Context) error {
 
 // Open initializes the background monitoring goroutine.
 func (db *DB) Open() (err error) {
+	db.lifecycleMu.Lock()
+	defer db.lifecycleMu.Unlock()
+
 	db.mu.Lock()
 	if db.opened {
 		db.mu.Unlock()
@@ -830,6 +839,9 @@ func (db *DB) Open() (err error) {
 // and closes the database. If Done is set, closing it interrupts the shutdown
 // sync retry loop and cancels any in-flight sync attempt.
 func (db *DB) Close(ctx context.Context) (err error) {
+	db.lifecycleMu.Lock()
+	defer db.lifecycleMu.Unlock()
+
 	db.cancel()
 	db.wg.Wait()
 
